@@ -406,6 +406,12 @@ class SText:
     def _cut_first(self, cur, sp):
         """cur == a ++ sep ++ b with the FIRST occurrence of sep (word equation with fresh a, b)"""
         c = ctx()
+        # memoised per (text term, separator): the cut at the first occurrence is unique, so code and spec side
+        # name the same pieces
+        memo = self.__dict__.setdefault("_cuts", {})
+        mk = (cur.sexpr(), sp.t.sexpr())
+        if mk in memo:
+            return memo[mk]
         nm = c.fresh_name("cut")
         a, b = z3.String(nm + ".a"), z3.String(nm + ".b")
         c.add(cur == z3.Concat(a, sp.t, b))
@@ -413,6 +419,7 @@ class SText:
             c.add(z3.Not(z3.Contains(a, sp.t)))
         else:
             c.add(z3.IndexOf(cur, sp.t, 0) == z3.Length(a))
+        memo[mk] = (a, b)
         return a, b
 
     def partition(self, sep):
@@ -422,6 +429,15 @@ class SText:
             a, b = self._cut_first(self.t, sp)
             return SText(a, self.kind), sep, SText(b, self.kind)
         return self, type(sep)(), type(sep)()
+
+    def rpartition(self, sep):
+        parts = self.rfind_parts(sep)
+        if parts is None:
+            return type(sep)(), type(sep)(), self
+        a, b = parts
+        head, tail = SText(a, self.kind), SText(b, self.kind)
+        head.rcut_head_of = (self, sep, tail)
+        return head, sep, tail
 
     def lower(self):
         return SCase(self, False)
